@@ -289,3 +289,127 @@ Proof.
   split; [exact tri_L_strict|]. split; [exact tri_U_strict|].
   vm_compute. repeat split; reflexivity.
 Qed.
+
+(* ---------------------------------------------------------------------------------- *)
+(* A6  The executing TEAM may be smaller than the thread count seen at set-up (SchedTeam.v).
+   Both level schedulers size their per-thread tables with omp_get_max_threads() in the
+   constructor and later run  #pragma omp parallel { tid = omp_get_thread_num();
+   for (task : tasks[tid]) { rows; barrier } }.  OpenMP gives that region a team of k <= nt
+   threads (k < nt: region entered from an enclosing active parallel region with nested
+   parallelism off, thread limit, OMP_DYNAMIC, omp_set_num_threads lowered after set-up).
+     team_trunc k  : the code as it exists -- thread t < k runs tasks[t], tasks[t] for t >= k
+                     are run by nobody;
+     team_cyclic k : the repaired code -- thread t of k runs tasks[t], tasks[t+k], ... of the
+                     level, then the barrier.                                              *)
+From Amgcl Require Import SchedTeam.
+
+(* for the full team both are the semantics all theorems above are about *)
+Theorem C09_team_full_is_existing_semantics (S : Scalar) lower f (A : crs S) (D rhs : vec S) nt :
+  team_trunc nt (sptr_par_levels lower A D nt) = sptr_par_levels lower A D nt /\
+  team_trunc nt (gs_par_levels f A nt rhs) = gs_par_levels f A nt rhs /\
+  team_cyclic nt (sptr_par_levels lower A D nt) = sptr_par_levels lower A D nt /\
+  team_cyclic nt (gs_par_levels f A nt rhs) = gs_par_levels f A nt rhs.
+Proof.
+  exact (conj (sptr_team_trunc_full lower A D nt) (conj (gs_team_trunc_full f A nt rhs)
+        (conj (sptr_team_cyclic_full lower A D nt) (gs_team_cyclic_full f A nt rhs)))).
+Qed.
+Print Assumptions C09_team_full_is_existing_semantics.
+
+(* the code as it exists under a reduced team is deterministic (so one run of the
+   implementation shows THE result) ... *)
+Theorem C09_sptr_reduced_team_deterministic (S : Scalar) lower (A : crs S) (D : vec S) nt k l (x : vec S) :
+  1 <= nt -> strict_tri lower A ->
+  InterleaveLevels (team_trunc k (sptr_par_levels lower A D nt)) l ->
+  exec l x = sptr_solve_team_trunc k lower A D nt x.
+Proof. exact (sptr_team_trunc_deterministic lower A D nt k l x). Qed.
+Print Assumptions C09_sptr_reduced_team_deterministic.
+
+Theorem C09_gs_reduced_team_deterministic (S : Scalar) f (A : crs S) nt k rhs l (x : vec S) :
+  1 <= nt ->
+  InterleaveLevels (team_trunc k (gs_par_levels f A nt rhs)) l ->
+  exec l x = gs_par_sweep_team_trunc k f A nt rhs x.
+Proof. exact (gs_team_trunc_deterministic f A nt k rhs l x). Qed.
+Print Assumptions C09_gs_reduced_team_deterministic.
+
+(* ... in which the rows of the missing threads keep their input value (any value type) *)
+Theorem C09_reduced_team_skips_rows (V : Type) (d : V) (stp : nat -> step V) (k : nat) (sch : rsched) i :
+  (forall j, wr (stp j) = j) -> ~ In i (flat_sched (team_trunc k sch)) ->
+  forall l, InterleaveLevels (team_trunc k (map (map (map stp)) sch)) l ->
+  forall st, rd V d (exec l st) i = rd V d st i.
+Proof. exact (team_trunc_skips V d stp k sch i). Qed.
+Print Assumptions C09_reduced_team_skips_rows.
+
+(* REFUTED for the code as it exists (finding C09-level-schedule-reduced-team): a valid
+   schedule built for nt = 4 and executed by a team of 2 is no longer a permutation of the
+   rows, and EVERY interleaving differs from the serial result.
+   sptr_solve<lower>: L rows {} {0:1} {0:1} {0:1}, x = (1,2,3,4): level 1 = rows 1,2,3 split
+   1/1/1/0 over 4 threads; threads 0,1 give (1,1,2,4), the serial solve (1,1,2,3).
+   Replayed on the implementation by the ops ilu_team / gs_team of drv_sched.cpp.          *)
+Theorem C09_sptr_reduced_team_refuted :
+  exists (A : crs QcS) (D x : vec QcS) (nt k : nat),
+    strict_tri true A /\ 1 <= k /\ k < nt /\
+    sptr_sched_ok true A (sptr_schedule true A nt) = true /\
+    sched_is_perm (nrows A) (team_trunc k (sptr_schedule true A nt)) = false /\
+    forall l, InterleaveLevels (team_trunc k (sptr_par_levels true A D nt)) l ->
+              exec l x <> exec (sptr_serial_steps true A D) x.
+Proof. exact sptr_reduced_team_refuted. Qed.
+Print Assumptions C09_sptr_reduced_team_refuted.
+
+(* parallel_sweep<forward>: A = diag(2,2,2,2), rhs = 2, x = 0: one level, one row per thread;
+   a team of 2 leaves x[2] = x[3] = 0 where the serial sweep gives 1. *)
+Theorem C09_gs_reduced_team_refuted :
+  exists (A : crs QcS) (rhs x : vec QcS) (nt k : nat),
+    1 <= k /\ k < nt /\
+    gs_sched_ok true A (gs_schedule true A nt) = true /\
+    sched_is_perm (nrows A) (team_trunc k (gs_schedule true A nt)) = false /\
+    forall l, InterleaveLevels (team_trunc k (gs_par_levels true A nt rhs)) l ->
+              exec l x <> gs_sweep A rhs x true.
+Proof. exact gs_reduced_team_refuted. Qed.
+Print Assumptions C09_gs_reduced_team_refuted.
+
+(* validity of a level schedule is a property of the row SETS of its levels: it survives every
+   redistribution of a level over any number of threads *)
+Theorem C09_validity_independent_of_distribution rds n f sch sch' :
+  same_levels sch sch' -> sched_valid rds n f sch -> sched_valid rds n f sch'.
+Proof. exact (sched_valid_same_levels rds n f sch sch'). Qed.
+Print Assumptions C09_validity_independent_of_distribution.
+
+(* the cyclic distribution keeps the rows of every level, for every team size *)
+Theorem C09_team_cyclic_keeps_rows (X : Type) k (lv : list (list X)) : 1 <= k ->
+  Permutation (concat (regroup k lv)) (concat lv) /\ length (regroup k lv) = k.
+Proof. intro H. exact (conj (regroup_flat_perm k lv H) (regroup_length k lv)). Qed.
+Print Assumptions C09_team_cyclic_keeps_rows.
+
+(* REPAIRED execution (fixes/C09-level-schedule-reduced-team.diff): for every set-up count
+   nt >= 1, EVERY team size k >= 1 (smaller, equal or larger than nt) and every interleaving
+   the result is the serial sweep / solve (any value type) *)
+Theorem C09_sptr_solve_any_team (S : Scalar) lower (A : crs S) (D : vec S) nt k l (x : vec S) :
+  1 <= nt -> 1 <= k -> strict_tri lower A ->
+  InterleaveLevels (team_cyclic k (sptr_par_levels lower A D nt)) l ->
+  exec l x = exec (sptr_serial_steps lower A D) x.
+Proof. exact (sptr_solve_cyclic_any_team lower A D nt k l x). Qed.
+Print Assumptions C09_sptr_solve_any_team.
+
+Theorem C09_gs_parallel_sweep_any_team (S : Scalar) forward (A : crs S) nt k rhs l (x : vec S) :
+  1 <= nt -> 1 <= k ->
+  InterleaveLevels (team_cyclic k (gs_par_levels forward A nt rhs)) l ->
+  exec l x = gs_sweep A rhs x forward.
+Proof. exact (gs_sweep_cyclic_any_team forward A nt k rhs l x). Qed.
+Print Assumptions C09_gs_parallel_sweep_any_team.
+
+(* (ring) ... = ilu_solve::serial_solve; the two triangular solves may even see different teams *)
+Theorem C09_ilu_parallel_solve_any_team_Qc (L U : crs QcS) (D x : vec QcS) nt k1 k2 l1 l2 :
+  1 <= nt -> 1 <= k1 -> 1 <= k2 -> strict_tri true L -> strict_tri false U ->
+  length x = nrows L -> nrows U = nrows L ->
+  InterleaveLevels (team_cyclic k1 (sptr_par_levels true L D nt)) l1 ->
+  InterleaveLevels (team_cyclic k2 (sptr_par_levels false U D nt)) l2 ->
+  exec l2 (exec l1 x) = ilu_serial_solve L U D x.
+Proof. exact (ilu_parallel_solve_cyclic_any_team QcS QcS_ring L U D x nt k1 k2 l1 l2). Qed.
+Print Assumptions C09_ilu_parallel_solve_any_team_Qc.
+
+Example C09_team_nonvacuous :
+  team_cyclic 2 (sptr_schedule true team_L 4) = [[[0]; []]; [[1; 3]; [2]]] /\
+  team_trunc 2 (sptr_schedule true team_L 4) = [[[0]; []]; [[1]; [2]]] /\
+  team_cyclic 3 (gs_schedule true team_A 5) = [[[0; 3]; [1]; [2]]] /\
+  stride_idx 3 8 1 = [1; 4; 7].
+Proof. exact team_cyclic_nontrivial. Qed.
